@@ -10,6 +10,7 @@ import RuxModel.Drv.Static
 import RuxModel.Drv.Conc
 import RuxModel.Drv.GoStr
 import RuxModel.Drv.Path
+import RuxModel.Drv.Dispatch
 /-
   Line-protocol driver: `driver <engine>` reads op lines on stdin and answers one line per op.
   Lines starting with `#` are echoed (they separate cases and carry comments).
@@ -42,7 +43,8 @@ def engines : List (String × Engine) := [
   ("static", staticEngine),
   ("conc", concEngine),
   ("gostr", goStrEngine),
-  ("path", pathEngine)
+  ("path", pathEngine),
+  ("dispatch", dispatchEngine)
 ]
 
 def main (args : List String) : IO UInt32 := do
